@@ -407,7 +407,7 @@ class Sim:
     def yield_point(self, me, why):
         if self.aborting:
             raise SimAbort()
-        if me.kill_pending is not None and not me.held_global:
+        if me.kill_pending and not me.held_global:
             self._die(me)
         self.switch(me, why)
 
@@ -676,7 +676,7 @@ def enable_line_preemption(path_prefixes):
             return
         s.line_gap = _draw_gap(s)
         s.count('line_preempt')
-        if me.kill_pending is not None and not me.held_global:
+        if me.kill_pending and not me.held_global:
             s._die(me)
         s.switch_away(me)
 
